@@ -99,6 +99,37 @@ def r1(cx):
                          % (b.sp(leak[0][0]), cname), [b.sp(leak[0][0])])
         else:
             cx.passed(ck, cname, [site, b.sp(pushes[0])], "dominates push; %d failure edges leave the loop" % len(esc))
+    # ... and ONLY at a bad record: every way out of the record loop is one of those failure edges (clean EOF, short header, undecodable header, short payload,
+    # CRC mismatch).  A further stop condition the writer does not enforce (e.g. "length implausible") makes a record the writer acknowledged unreadable
+    p0 = pushes[0]
+    fwd = b.reachable(p0)
+    scc = {x for x in fwd if p0 in b.reachable(x)} | {p0}
+    explained = set()
+    for (cname, must, esc, site) in conds:
+        explained |= set(esc)
+    # an exit is explained if it IS a failure edge or lies behind one without re-entering the loop
+    behind = set()
+    for e in explained:
+        behind |= {e[1]} | b.reachable(e[1])
+    unexplained = []
+    for u in sorted(scc):
+        if b.is_cleanup(u):
+            continue
+        for v in b.succs(u):
+            if v in scc or b.is_cleanup(v) or b.term(v)["k"] == "unreachable":
+                continue
+            if (u, v) in explained or u in behind:
+                continue
+            # error propagation out of the function (an I/O error is not a stop-and-keep-the-prefix)
+            if not ({e[0] for e in M.exit_defs(b) if e[2] != "err"} & (b.reachable(v) | {v})):
+                continue
+            unexplained.append((u, v))
+    if unexplained:
+        cx.violation(ck, "stops-only-at-bad-records", "%s: the record loop can be left - keeping the prefix read so far - on a condition that is none of short read, undecodable header and CRC "
+                     "mismatch: a record the writer wrote and acknowledged is treated as the end of the log, it and everything after it are not recovered (and open() cuts them off)" % b.sp(unexplained[0][0]),
+                     [b.sp(unexplained[0][0])])
+    else:
+        cx.passed(ck, "stops-only-at-bad-records", [b.sp(p0)], "%d loop exits, all on failure edges of the %d record checks" % (len(explained), len(conds)))
     # what is pushed is what was read: seq from the decoded header, payload = the buffer that was CRC-checked
     for p in pushes:
         t = b.term(p)
